@@ -4,6 +4,7 @@ package c09
 import (
 	"bytes"
 	"crypto/x509"
+	"errors"
 	"fmt"
 	"math"
 	"math/rand"
@@ -17,6 +18,7 @@ import (
 	"github.com/hashicorp/nodeenrollment/registration"
 	"github.com/hashicorp/nodeenrollment/rotation"
 	"github.com/hashicorp/nodeenrollment/types"
+	"google.golang.org/protobuf/proto"
 	"pgregory.net/rapid"
 	"verifharness/vkit"
 )
@@ -52,6 +54,33 @@ type sim struct {
 	resets     int
 	calls      int
 	log        []string
+	// failEvery > 0: before every failEvery-th server rotation, one rotation ATTEMPT is
+	// made whose write of the roots record fails (a storage outage); the next call is the retry
+	failEvery int
+	// sawRoots: a complete root pair was in storage after an earlier call
+	sawRoots bool
+}
+
+// failedAttempt makes one rotation call during which storing the roots record fails.
+func (s *sim) failedAttempt() (string, string) {
+	before := s.w.RawRoots()
+	s.w.Rec.Fault = func(i int, op vkit.Op) error {
+		if op.Kind == "store" && op.Type == "RootCertificates" {
+			return &vkit.InjectedError{Inner: errors.New("storage outage")}
+		}
+		return nil
+	}
+	_, err := rotation.RotateRootCertificates(s.w.Ctx, s.w.Store, s.w.O(s.cfg.Opts()...)...)
+	s.w.Rec.Fault = nil
+	if err == nil {
+		return "", "" // nothing had to be written
+	}
+	s.log = append(s.log, fmt.Sprintf("t=%s rotation attempt failed on the roots write", s.rel()))
+	after := s.w.RawRoots()
+	if before != nil && (after == nil || !proto.Equal(before, after)) {
+		return "C09/trust-reset/failed-call-changed-roots", fmt.Sprintf("a rotation call at %s that FAILED (the roots write was refused by storage) nevertheless changed or removed the stored root pair; the retry will start from something else than the roots nodes were enrolled against", s.rel())
+	}
+	return "", ""
 }
 
 func newSim(cfg vkit.RootConfig, wrapper bool) *sim {
@@ -106,7 +135,15 @@ func (s *sim) set() (cur, next rootView, ok bool) {
 
 // rotate performs one judged rotation call; returns a violation description.
 func (s *sim) rotate(judged bool) (string, string) {
+	if s.failEvery > 0 && s.calls%s.failEvery == s.failEvery-1 {
+		if k, w := s.failedAttempt(); k != "" {
+			return k, w
+		}
+	}
 	oc, on, had := s.set()
+	if !had && s.sawRoots {
+		return "C09/trust-reset/roots-vanished", fmt.Sprintf("at %s the root pair that was in storage after the previous call is gone", s.rel())
+	}
 	res, v := vkit.JudgeRotate(s.w, s.cfg, false, nil)
 	s.calls++
 	if v.Key != "" && !(os.Getenv("VERIF_C09_INVARIANTS_ONLY") == "1" && res.Outcome != vkit.Failed && res.Outcome != "") {
@@ -115,7 +152,8 @@ func (s *sim) rotate(judged bool) (string, string) {
 		// embedded C08 judge so that the trust-continuity invariants have to speak.)
 		return v.Key, v.What
 	}
-	nc, nn, _ := s.set()
+	nc, nn, nowHas := s.set()
+	s.sawRoots = s.sawRoots || nowHas
 	for _, r := range []rootView{nc, nn} {
 		if _, ok := s.mintOffset[r.pub]; !ok {
 			s.mintOffset[r.pub] = s.offset
@@ -324,6 +362,7 @@ func TestProp_RandomSchedules(t *testing.T) {
 		style := rapid.SampledFrom([]string{"jitter", "jitter", "exactly-at-bound", "late-promotion"}).Draw(t, "style")
 		horizon := time.Duration(rapid.IntRange(5, 20).Draw(t, "horizonV")) * V
 		s := newSim(cfg, rapid.Bool().Draw(t, "wrapper"))
+		s.failEvery = rapid.SampledFrom([]int{0, 0, 2, 3, 5}).Draw(t, "failedAttemptBeforeEveryNthRotation")
 		defer s.w.Close()
 		epoch = s.vnow()
 		// bootstrap at t=0
